@@ -113,6 +113,12 @@ def _gen_con(rng, cls=None, tail=False):
     zero_var = rng.random() < 0.15
     if zero_var and q == 1:
         var[:, :, rng.randrange(nv)] = 0.0
+    elif zero_var and ty == "tmin-conjunction":
+        # a component without variance at one voxel (constant voxel): the conjunction statistic is defined there
+        # through the floor `tiny`; the matrix stays positive semi-definite
+        v, i = rng.randrange(nv), rng.randrange(q)
+        var[i, :, v] = 0.0
+        var[:, i, v] = 0.0
     other_ty = ty if rng.random() < 0.8 else rng.choice(["t", "F", "tmin-conjunction"])
     oq = q if rng.random() < 0.9 else q + 1
     ovar = np.zeros((oq, oq, nv))
